@@ -70,7 +70,8 @@ class Version:
                     self.records[n["name"]] = n
         self.defs = []          # [(leanName, isUnion, packed, [(fname, tyExpr, bits)], clangKey)]
         self.done = {}          # key -> leanName
-        self.fields_of = {}     # leanName -> [(fname, kind, childLeanName|None, anonymous?)]
+        self.fields_of = {}     # leanName -> [(fname, childLeanName|None, anonymous?, bits, big-endian?)]
+        self.key_of = {}        # leanName -> clang's name of the record
         self.dump = self.parse_dump(clang(ver6, ["-Xclang", "-fdump-record-layouts"]))
 
     # ---- clang -fdump-record-layouts -------------------------------------------------------
@@ -133,6 +134,30 @@ class Version:
             return self.type_expr(ty.get("desugaredQualType") or ty["qualType"])
         die("unknown C type %r" % t)
 
+    def py_size(self, t):
+        """(size in bytes) of a non-record C type string, mirroring type_expr."""
+        t = re.sub(r"\b(const|volatile)\b", "", t).strip()
+        m = re.match(r"^(.*?)\s*\[(\d+)\]((\[\d+\])*)$", t)
+        if m:
+            return self.py_size(m.group(1) + m.group(3)) * int(m.group(2))
+        if t.endswith("*"):
+            return 8
+        if t in BUILTIN:
+            return BUILTIN[t][0]
+        if t.startswith("enum "):
+            return 4
+        m = re.match(r"^(struct|union) (\w+)$", t)
+        if m:
+            return self.dump["%s %s" % (m.group(1), m.group(2))][1]
+        if t in self.typedefs:
+            td = self.typedefs[t]
+            owned = [x["ownedTagDecl"]["id"] for x in td.get("inner", []) if x.get("ownedTagDecl")]
+            if owned:
+                return self.dump[t][1]
+            ty = td["type"]
+            return self.py_size(ty.get("desugaredQualType") or ty["qualType"])
+        die("unknown C type %r" % t)
+
     def build(self, node, lean_name, clang_key):
         if node["id"] in self.done:
             return self.done[node["id"]]
@@ -189,7 +214,13 @@ class Version:
                             td = self.typedefs.get(nxt)
                 name = c.get("name") or ("_anon%d" % (anon_i - 1))
                 fields.append((name, ty, bits))
-                struct_fields.append((name, child, not c.get("name")))
+                if bits is not None:
+                    nbits = bits
+                elif "(anonymous" in qt or "(unnamed" in qt:
+                    nbits = 8 * self.dump[re.sub(r"\s*\[\d+\]$", "", qt)][1]
+                else:
+                    nbits = 8 * self.py_size(c["type"].get("desugaredQualType") or qt)
+                struct_fields.append((name, child, not c.get("name"), nbits, qt.startswith("__be")))
             elif k in ("IndirectFieldDecl",):
                 pass
             elif k in ("FullComment", "ParagraphComment", "TextComment"):
@@ -197,6 +228,7 @@ class Version:
             else:
                 die("%s: unexpected member kind %s" % (lean_name, k))
         self.done[node["id"]] = lean_name
+        self.key_of[lean_name] = clang_key
         self.defs.append((lean_name, is_union, packed, fields, clang_key))
         self.fields_of[lean_name] = struct_fields
         return lean_name
@@ -204,7 +236,7 @@ class Version:
     # ---- flattened member paths ----------------------------------------------------------------
     def paths(self, lean_name, prefix="", chain=()):
         out = []
-        for (fname, child, anonymous) in self.fields_of[lean_name]:
+        for (fname, child, anonymous, _, _) in self.fields_of[lean_name]:
             step = chain + ((lean_name, fname),)
             if anonymous:
                 out += self.paths(child, prefix, step)
@@ -214,9 +246,24 @@ class Version:
                     out += self.paths(child, prefix + fname + ".", step)
         return out
 
+    def clang_paths(self, lean_name, prefix="", base=0):
+        """path -> (bit offset, bit size, big-endian) using CLANG's member offsets (for the harness oracle)."""
+        out = {}
+        kids = self.dump[self.key_of[lean_name]][0]
+        for i, (fname, child, anonymous, nbits, be) in enumerate(self.fields_of[lean_name]):
+            off = base + kids[i]
+            if anonymous:
+                out.update(self.clang_paths(child, prefix, off))
+            else:
+                out[prefix + fname] = [off, nbits, be]
+                if child:
+                    out.update(self.clang_paths(child, prefix + fname + ".", off))
+        return out
 
-def emit_version(v, ns, go_rows, b):
+
+def emit_version(v, ns, go_rows, b, t):
     b.append("namespace %s\n" % ns)
+    t.append("namespace %s\n" % ns)
     for (name, is_union, packed, fields, _) in v.defs:
         b.append("def %s : Rec := { isUnion := %s, packed := %s, fields := [" % (
             name, "true" if is_union else "false", "true" if packed else "false"))
@@ -238,8 +285,8 @@ def emit_version(v, ns, go_rows, b):
         cl.append("  (%s, %s, %d, %d)" % (name, "[" + ", ".join(map(str, kids)) + "]", size, align))
     b.append(",\n".join(cl))
     b.append("]\n")
-    b.append("/-- The Lean layout algorithm reproduces clang's layout of every translated record\n(finite table). -/")
-    b.append("theorem layout_eq_clang : clangLayouts.all (fun e =>\n    e.1.layout.map (·.off) == e.2.1 && e.1.size == e.2.2.1 && e.1.align == e.2.2.2) = true := by decide\n")
+    t.append("/-- The Lean layout algorithm reproduces clang's layout of every translated record\n(finite table). -/")
+    t.append("theorem layout_eq_clang : clangLayouts.all (fun e =>\n    e.1.layout.map (·.off) == e.2.1 && e.1.size == e.2.2.1 && e.1.align == e.2.2.2) = true := by decide\n")
     # flattened paths per root
     b.append("/-- Member paths (anonymous members flattened) of every shared structure. -/")
     b.append("def structs : List (String × Rec × List (String × List (Rec × String))) := [")
@@ -260,9 +307,17 @@ def emit_version(v, ns, go_rows, b):
     ms = [r["size"] for r in go_rows if r["mode"] == "mirror-size"]
     if ms:
         b.append("/-- `unsafe.Sizeof(state.State{})`: the Go mirror of `struct cali_tc_state`. -/\ndef stateMirrorSize : Nat := %d\n" % ms[0])
-    b.append("/-- Every offset/size the Go code uses equals the C layout (finite table, `decide`). -/")
-    b.append("theorem go_matches_c : goRows.all (rowOk structs) = true := by decide +kernel\n")
+    be = []
+    for r in ROOTS:
+        for pth, (_, _, isbe) in sorted(v.clang_paths(r).items()):
+            if isbe:
+                be.append("(%s, %s)" % (lean_str(r), lean_str(pth)))
+    b.append("/-- Members declared with a big-endian type (`__be16/32/64`). -/")
+    b.append("def beFields : List (String × String) := [%s]\n" % ", ".join(be))
+    t.append("/-- Every offset/size the Go code uses equals the C layout (finite table, `decide`). -/")
+    t.append("theorem go_matches_c : goRows.all (rowOk structs) = true := by decide +kernel\n")
     b.append("end %s\n" % ns)
+    t.append("end %s\n" % ns)
 
 
 def polprog_rows():
@@ -337,15 +392,23 @@ def main():
             v.build(v.records[r], r, "struct " + r)
     b = ["/- GENERATED by translate/c13/gen.py from felix/bpf-gpl/*.h (clang -target bpf AST), the real Go code\n(harness/cmd/c13 -dump) and felix/bpf/polprog/pol_prog_builder.go — do not edit. -/",
          "import CalicoVerif.Model.C13Table\nopen CalicoVerif.C13\n"]
-    emit_version(v4, "CalicoVerif.C13.Gen.V4", [r for r in rows if r["ver"] == "4"] + pp4, b)
-    emit_version(v6, "CalicoVerif.C13.Gen.V6", [r for r in rows if r["ver"] == "6"] + pp6, b)
+    t = ["/- GENERATED by translate/c13/gen.py — the finite-table theorems over Gen/C13.lean (kept in a separate\nfile so that the model driver still builds, and can exhibit the failing row, when one of them fails). -/",
+         "import CalicoVerif.Gen.C13\nopen CalicoVerif.C13\n"]
+    emit_version(v4, "CalicoVerif.C13.Gen.V4", [r for r in rows if r["ver"] == "4"] + pp4, b, t)
+    emit_version(v6, "CalicoVerif.C13.Gen.V6", [r for r in rows if r["ver"] == "6"] + pp6, b, t)
     os.makedirs(os.path.dirname(OUT), exist_ok=True)
     open(OUT, "w").write("\n".join(b))
+    open(os.path.join(os.path.dirname(OUT), "C13Thm.lean"), "w").write("\n".join(t))
     # sizeof of every root record as clang computes it: read by the harness oracle (the Go side has
     # no other way to know a C size)
     sizes = {"4": {r: v4.dump["struct " + r][1] for r in ROOTS}, "6": {r: v6.dump["struct " + r][1] for r in ROOTS}}
     os.makedirs(os.path.join(ROOT, ".build"), exist_ok=True)
     json.dump(sizes, open(os.path.join(ROOT, ".build", "c13-csizes.json"), "w"))
+    # clang's offset/size of every member path + the polprog rows: the harness oracle compares the Go
+    # side with these directly (a concrete failing row even when the Lean theorem no longer proves)
+    cl = {"4": {r: v4.clang_paths(r) for r in ROOTS}, "6": {r: v6.clang_paths(r) for r in ROOTS},
+          "polprog": {"4": pp4, "6": pp6}}
+    json.dump(cl, open(os.path.join(ROOT, ".build", "c13-clayout.json"), "w"))
 
 
 if __name__ == "__main__":
